@@ -268,7 +268,7 @@ def gen_gate_stmt_raw(rng, lay, qubits=None, vars_=(), depth=3, allow_user=True,
     k = rng.choice(choices)
     if k == "g01":
         g = rng.choice(GATES0_1 + ["qft"])
-        if qubits is None and lay.q and (g in BROADCAST1 or g == "qft") and rng.random() < 0.15:
+        if qubits is None and lay.q and (g in BROADCAST1 or g == "qft") and g not in [u[0] for u in lay.gates] and rng.random() < 0.15:
             # whole-register form of a one-qubit gate: the gate on each qubit of the register
             return ("apply", g, [("r", rng.choice(lay.q)[0])], [])
         return ("apply", g, [rng.choice(qs)], [])
@@ -325,6 +325,11 @@ def gen_program(rng, nstmts=12, max_q=5, measure_p=0.0, if_p=0.0, reset_p=0.0, g
     # gate definitions (nested: later ones may call earlier ones)
     gnames = ["g1", "mygate", "rot", "bell", "x"]   # "x" shadows a built-in
     rng.shuffle(gnames)
+    # a definition that shadows a built-in comes first: names inside gate bodies are resolved when the gate is
+    # called, so a body written before the shadowing definition would silently change its meaning (or arity)
+    ndefs = rng.randint(0, gate_defs)
+    if "x" in gnames[:ndefs]:
+        gnames.remove("x"); gnames.insert(0, "x")
     def gate_def(gname):
         nr = rng.randint(1, 3); npar = rng.randint(0, 3)
         regs = ["a", "b", "cc"][:nr]
@@ -339,7 +344,7 @@ def gen_program(rng, nstmts=12, max_q=5, measure_p=0.0, if_p=0.0, reset_p=0.0, g
         lay.gates.append((gname, nr, npar))
         return ("gate", gname, regs, params, body)
 
-    for gi in range(rng.randint(0, gate_defs)):
+    for gi in range(ndefs):
         nodes.append(gate_def(gnames[gi]))
     for _ in range(nstmts):
         if rng.random() < late_p:
@@ -354,7 +359,7 @@ def gen_program(rng, nstmts=12, max_q=5, measure_p=0.0, if_p=0.0, reset_p=0.0, g
                 s_ = rng.randint(1, 3)
                 nodes.append(("creg", freec[0], s_)); lay.c.append((freec[0], s_))
             elif kind == "gate":
-                free = [g for g in gnames if g not in [x[0] for x in lay.gates]]
+                free = [g for g in gnames if g not in [x[0] for x in lay.gates] and g != "x"]
                 if free:
                     # (its body may call the gates defined so far: nested definitions across chunks)
                     nodes.append(gate_def(free[0]))
